@@ -42,6 +42,12 @@ Decides necessary structural conditions only (never that decoded values equal wh
                                     table -- and the counter afterwards is (c + 1) mod N, so it stays in [0, N-1]
    o5m-ring-get                     get() rejects exactly index 0 and index > number_of_entries, and addresses slot
                                     (current + k*N - index) % N with the same N and the same entry size
+ XML       attribute order independence
+   xml-attribute-branch-own-field   in every per-attribute dispatcher (the lambdas handed to XMLParser::check_attributes, OSMObject::set_attribute,
+                                    Changeset::set_attribute) a branch for one attribute updates only its own field of the state being assembled:
+                                    no two writes under different attribute tests where one target is a prefix of (whole object / sub-object
+                                    assigned or re-created) or equal to (same field) the other; an accumulated local is not handed on inside the
+                                    loop and is used after it
  extra     o5m dataset framing
    o5m-dataset-codes                dataset_type enumerators carry the codes of the o5m description
    o5m-dataset-length-framing       a length is decoded exactly for dataset bytes < 0xf0 (exhaustive over 0..255); on every path from the
@@ -65,14 +71,11 @@ from ..c02_util import (Shape, strip_casts, this_field, leaves, linear_terms, ev
 
 NS = 'osmium::io::detail::'
 
-# (rule, key, explanation) of genuine defects of the pristine tree this module reports
-KNOWN = [
-    ('blob-header-length-big-endian', 'osmium::io::detail::PBFParser::get_size_in_network_byte_order#zero-extension',
-     'the four length bytes are read through `const char*` and widened with static_cast<uint32_t>(d[i]); where plain char is signed '
-     '(x86-64, the analysed target) a byte >= 0x80 sign-extends to 0xFFFFFFxx and the OR of the terms is > max_blob_header_size: '
-     'a conformant PBF file whose BlobHeader is 128..255 bytes long (length bytes 00 00 00 80, e.g. a BlobHeader carrying ~115 bytes '
-     'of indexdata), or >= 32768 bytes, is rejected with "invalid BlobHeader size (> max_blob_header_size)" on both input paths'),
-]
+# (rule, key, explanation) of genuine defects of the pristine tree this module reports.
+# History: blob-header-length-big-endian / ...PBFParser::get_size_in_network_byte_order#zero-extension (F15: length bytes widened from
+# plain signed char, BlobHeaders of 128..255 or >= 32768 bytes rejected) was reported by this module and has since been fixed in /repo
+# ("fix: PBF BlobHeader length bytes are read as unsigned"); its revert is the mutant blob-header-length-sign-extended.
+KNOWN = []
 
 EXPLANATION = (
     'Decided: (1) every switch over tag_and_type() of a protozero::pbf_message in the PBF reader has a default that skips, and '
@@ -85,7 +88,8 @@ EXPLANATION = (
     'paths apply the max_blob_header_size limit; the limits are the spec\'s. (4) O5mParser::reset() clears every DeltaDecode member '
     'and the reference table and is called exactly for byte 0xff. (6) the o5m reference ring: constants, add() boundary '
     '(size <= 252), slot advance / wrap, get() range test and modular slot arithmetic agree. (extra) o5m dataset codes, length '
-    'framing (< 0xf0) and exactly-once skipping of every dataset payload. '
+    'framing (< 0xf0) and exactly-once skipping of every dataset payload. (XML) every per-attribute branch writes only its own field '
+    'of the object being assembled (no whole-object re-creation, no shared field), accumulators are committed after the loop. '
     'NOT decided: o5m input window validity (clause 5; decided by C06 with STALE-W), equality of decoded values with what an '
     'independent encoder meant, delta chains, o5m positional field order, XML/OPL decoding, agreement between the four readers, '
     'decompression, entity-mask pairing.')
@@ -1555,6 +1559,232 @@ def o5m_ring_rules(fb, R, TABLE=NS + 'ReferenceTable'):
                 detail={'modulus': mod, 'constant': const_sum, 'stride': stride})
 
 
+# ================================================================================================ XML attribute order
+
+R_XATTR = 'xml-attribute-branch-own-field'
+
+
+def _call_comp(g, n):
+    lits = []
+    for a in n.get('args', []):
+        m = g.sn(a) if a is not None else None
+        hops = 0
+        while m is not None and m.get('k') == 'construct' and m.get('args') and hops < 3:
+            hops += 1           # "literal" converted to std::string
+            m = g.sn(m['args'][0])
+        if m is not None and m.get('k') == 'lit' and 'str' in m:
+            lits.append('"%s"' % m['str'])
+        elif a is not None and g.const_value(a) is not None:
+            lits.append(str(g.const_value(a)))
+        else:
+            lits.append('_')
+    return '%s(%s)' % (n['q'].rsplit('::', 1)[-1] if 'q' in n else n.get('name', '?'), ','.join(lits))
+
+
+def _chain(g, nid):
+    """(root, path) of an lvalue / receiver expression: root = ('var', decl, name) for a captured local, ('field', q, name) for a
+    member of the enclosing object, ('this',) for the object itself, None for anything local to the dispatcher; path = accessors
+    applied to the root, outermost last."""
+    comps = []
+    x = nid
+    hops = 0
+    while x is not None and x in g.nodes and hops < 40:
+        hops += 1
+        n = g.nodes[x]
+        k = n.get('k')
+        if k in ('wrap', 'icast', 'cast') and 'sub' in n:
+            x = n['sub']
+        elif k == 'construct' and n.get('elidable') and len(n.get('args', [])) == 1:
+            x = n['args'][0]
+        elif k == 'call' and n.get('recv') is not None:
+            comps.append(('op' + n['op']) if n.get('op') else _call_comp(g, n))
+            x = n['recv']
+        elif k == 'member' and n.get('field'):
+            b = g.sn(n['base'])
+            if b is not None and b.get('k') == 'this':
+                return ('field', n['q'], n['name']), tuple(reversed(comps))
+            comps.append('.' + n['name'])
+            x = n['base']
+        elif k == 'unop' and n.get('op') in ('*', '&'):
+            comps.append(n['op'])
+            x = n['sub']
+        elif k == 'index':
+            comps.append('[]')
+            x = n['base']
+        elif k == 'var':
+            if n.get('captured'):
+                return ('var', n.get('d'), n['name']), tuple(reversed(comps))
+            return None, ()
+        elif k == 'this':
+            return ('this',), tuple(reversed(comps))
+        else:
+            return None, ()
+    return None, ()
+
+
+def _attr_guards(g, nid, name_d):
+    """(frozenset of (condition text, sense), label) for the tests on the attribute name that node nid runs under."""
+    out = set()
+    labels = []
+    for (c, sense, _b) in edge_guards(g, nid, loop_exits=True):
+        if not any(g.nodes[x].get('k') == 'var' and g.nodes[x].get('d') == name_d for x in g.subtree(c)):
+            continue
+        n = g.sn(c)
+        if n is not None and n.get('k') == 'unop' and n['op'] == '!':
+            continue
+        if n is not None and n.get('k') == 'binop' and ((n['op'] == '&&' and sense) or (n['op'] == '||' and not sense)):
+            continue
+        out.add((g.expr(c), sense))
+        matched = (n is not None and n.get('k') == 'call' and not sense) or \
+                  (n is not None and n.get('k') == 'binop' and n['op'] == '==' and sense)
+        if matched:
+            for x in g.subtree(c):
+                m = g.nodes[x]
+                if m.get('k') == 'lit' and 'str' in m:
+                    labels.append(m['str'])
+                elif m.get('k') == 'lit' and m.get('char') and m.get('cv') not in (None, '0'):
+                    try:
+                        labels.append(chr(int(m['cv'])))
+                    except (ValueError, TypeError):
+                        pass
+    return frozenset(out), ('"%s"' % ''.join(labels[-1:]) if labels else ('any other attribute' if out else 'every attribute'))
+
+
+def _dispatch_writes(fb, g, name_d):
+    """[(root, path, node id, guard set, label, kind)] for every update of enclosing state in dispatcher body g."""
+    pm = g.parent_map()
+    writes = []
+    reads_as_arg = []
+    for n in g.all_nodes():
+        k = n.get('k')
+        tgt = None
+        comp = None
+        if k == 'assign':
+            tgt = n['lhs']
+        elif k == 'unop' and n.get('op') in ('++', '--'):
+            tgt = n['sub']
+        elif k == 'call' and n.get('recv') is not None and n.get('op') in ('=', '+=', '-=', '|=', '&=', '++', '--'):
+            tgt = n['recv']
+        elif k == 'call' and n.get('recv') is not None and not n.get('op'):
+            # outermost call of a chain only
+            x = n['id']
+            inner = False
+            hops = 0
+            while x in pm and hops < 6:
+                hops += 1
+                p = g.nodes[pm[x]]
+                if p.get('k') in ('wrap', 'icast'):
+                    x = p['id']
+                    continue
+                if (p.get('k') == 'call' and p.get('recv') is not None and g.strip(p['recv']) == n['id']) or \
+                        (p.get('k') == 'member' and g.strip(p.get('base')) == n['id']):
+                    inner = True
+                break
+            if inner:
+                continue
+            callee = [f for f in fb.by_usr.get(n.get('u'), [])]
+            if callee and callee[0].const:
+                continue
+            tgt = n['recv']
+            comp = _call_comp(g, n)
+        if k == 'call':
+            for a in n.get('args', []):
+                if a is None:
+                    continue
+                r, pth = _chain(g, a)
+                if r is not None and r[0] == 'var':
+                    reads_as_arg.append((r, n['id']))
+        if tgt is None:
+            continue
+        root, path = _chain(g, tgt)
+        if root is None:
+            continue
+        if comp is not None:
+            path = path + (comp,)
+        gs, label = _attr_guards(g, n['id'], name_d)
+        writes.append((root, path, n['id'], gs, label))
+    return writes, reads_as_arg
+
+
+def _fmt_path(root, path):
+    base = root[2] if len(root) > 2 else 'this'
+    txt = base
+    for c in path:
+        txt += c if c.startswith('.') or c.startswith('[') else ('.' + c if not c.startswith('op') and c not in ('*', '&') else c)
+    return txt
+
+
+def xml_attribute_rules(fb, R, PARSER=NS + 'XMLParser', CHECK='check_attributes', SETATTR=('osmium::OSMObject::set_attribute', 'osmium::Changeset::set_attribute')):
+    dispatchers = []   # (key, Fn body, name param decl, outer Fn or None, call node id, captured decls)
+    seen = set()
+    for fn in fb.functions:
+        if not fn.has_cfg or fn.is_lambda:
+            continue
+        for c in fn.all_nodes():
+            if c.get('k') != 'call' or c.get('q') != '%s::%s' % (PARSER, CHECK):
+                continue
+            lam = None
+            for a in c.get('args', []):
+                for x in fn.subtree(a):
+                    if fn.nodes[x].get('k') == 'lambda':
+                        lam = fn.nodes[x]
+            g = fb.lambda_fn(fn, lam) if lam is not None else None
+            if g is None or not g.has_cfg or len(g.params) != 2:
+                R.broken('%s: the per-attribute callback passed to %s at %s is not a two-parameter lambda' % (fn.q, CHECK, fn.loc(c['id'])))
+                continue
+            caps = [cp.get('name', 'this') for cp in lam.get('captures', [])] or ['this']
+            key = '%s#attributes->[%s]' % (fn.q, ','.join(caps))
+            if (fn.pat, key) in seen:
+                continue
+            seen.add((fn.pat, key))
+            dispatchers.append((key, g, g.params[0]['d'], fn, c['id'], {cp.get('d') for cp in lam.get('captures', []) if cp.get('byref')}))
+    for q in SETATTR:
+        for g in fb.fns(q):
+            if g.has_cfg and len(g.params) == 2 and (g.pat, q) not in seen:
+                seen.add((g.pat, q))
+                dispatchers.append((q + '#attributes', g, g.params[0]['d'], None, None, set()))
+    if not dispatchers:
+        R.broken('no per-attribute dispatcher (%s lambda / set_attribute) found' % CHECK)
+        return
+    for (key, g, name_d, outer, call_id, capd) in dispatchers:
+        writes, arg_reads = _dispatch_writes(fb, g, name_d)
+        msgs = []
+        for i, (ra, pa, na, ga, la) in enumerate(writes):
+            for j, (rb, pb, nb, gb, lb) in enumerate(writes):
+                if i == j or ra != rb or ga == gb or na == nb:
+                    continue
+                if len(pa) <= len(pb) and pb[:len(pa)] == pa:
+                    if len(pa) == len(pb) and i > j:
+                        continue   # symmetric pair reported once
+                    what = _fmt_path(ra, pa)
+                    if len(pa) < len(pb):
+                        msgs.append('the branch for %s assigns / re-creates the whole of `%s` (line %s) although the branch for %s stores its value '
+                                    'inside it (`%s`): what %s parsed is thrown away when %s comes later in the element, so the result depends '
+                                    'on attribute order' % (la, what, g.nodes[na].get('l'), lb, _fmt_path(rb, pb), lb, la))
+                    else:
+                        msgs.append('the branches for %s and %s both write `%s`: the later attribute wins, so the result depends on attribute '
+                                    'order' % (la, lb, what))
+        written = {}
+        for (r, pth, nid, gs, lab) in writes:
+            if r[0] == 'var':
+                written.setdefault(r[1], r[2])
+        for (r, nid) in arg_reads:
+            if r[1] in written and g.nodes[nid].get('k') == 'call':
+                msgs.append('`%s` is handed to %s inside the attribute loop (line %s), before all attributes of the element have been seen'
+                            % (r[2], g.nodes[nid].get('q', g.nodes[nid].get('name', 'a call')).rsplit('::', 1)[-1], g.nodes[nid].get('l')))
+        if outer is not None:
+            for d, nm in sorted(written.items(), key=lambda kv: str(kv[1])):
+                if d not in capd:
+                    continue
+                later = [n for n in outer.all_nodes() if n.get('k') == 'var' and n.get('d') == d and outer.elem_dominates(call_id, n['id'])]
+                if not later:
+                    msgs.append('`%s` is filled by the attribute loop but never used after it: the parsed values are dropped' % nm)
+        msgs = sorted(set(msgs))
+        site = g.site if outer is None else outer.loc(call_id)
+        R.check(not msgs, R_XATTR, key, site, '%s: %s' % (key, '; '.join(msgs[:4])),
+                detail={'updates': sorted({'%s <- %s' % (_fmt_path(r, pth), lab) for (r, pth, _n, _g, lab) in writes})})
+
+
 # ================================================================================================ driver
 
 def run(ctx):
@@ -1570,6 +1800,7 @@ def run(ctx):
         o5m_reset_rules(fb, R)
         o5m_dataset_rules(fb, R)
         o5m_ring_rules(fb, R)
+        xml_attribute_rules(fb, R)
     # instance floors, each count confirmed by reading the pristine tree (the evidence file lists the instances)
     floors = [
         (R_DEFAULT, 13),    # 13 switches over tag_and_type(): 9 in PBFPrimitiveBlockDecoder, decode_blob, decode_header_bbox, decode_header_block, decode_blob_header
@@ -1592,6 +1823,7 @@ def run(ctx):
         (R_RCONST, 3),      # number of entries, entry size, table size
         (R_RADD, 2),
         (R_RGET, 2),
+        (R_XATTR, 10),      # 8 check_attributes lambdas (init_object, init_changeset, get_tag, top_level_element, bounds, nd, member, comment) + 2 set_attribute
     ]
     for rule, n in floors:
         R.expect(rule, n)
